@@ -112,8 +112,8 @@ def value_close(a, b):
 
 
 # ---------------------------------------------------------------------------- building real inputs
-def build(keys, vals, nkeys, form):
-    """Return (table, over_spec, sources dict name->spec usable in *_over arguments)."""
+def build(keys, vals, nkeys, form, variant=None):
+    """Return (table, over_spec); variant = index into provenance.TABLE_ROUTES or None (direct construction)."""
     from serif import Table, Vector
     kcols = [(f"k{j}", [k[j] for k in keys]) for j in range(nkeys)]
     vcols = [("v", list(vals)), ("w", wvals(vals))]
@@ -121,7 +121,11 @@ def build(keys, vals, nkeys, form):
         cols = vcols
     else:
         cols = kcols + vcols
-    t = Table([Vector(list(c), name=nm) for nm, c in cols])
+    if variant is None:
+        t = Table([Vector(list(c), name=nm) for nm, c in cols])
+    else:
+        from . import provenance
+        _, t = provenance.table_variant(cols, variant)
     if form == "name":
         over = [nm for nm, _ in kcols]
     elif form == "column":
